@@ -1,4 +1,5 @@
 import SgVerif.C35.Model
+import SgVerif.C35.Modes
 /-
 C35 — private parts of partially shared buffers are transferred exactly.  Property theorems.
 All theorems are for ALL block lists (any length), offsets and sizes (only `< 2^64`, as `size_t` values are).
@@ -398,6 +399,83 @@ theorem shared_bytes_untouched (fixed : Bool) (srcK dstK : BufKind) (n : Nat) (s
       simp only [Bool.false_eq_true, if_false]
       exact memcpyPrivate_not_covered _ _ _ _ (h s d e1 e2)
 
+/-! ### end to end: the three send modes -/
+
+theorem modeOf_cases (ssend bsend rma : Bool) (size thresh : Nat) :
+    (modeOf ssend bsend rma size thresh = .eager ↔ ssend = false ∧ rma = false ∧ bsend = false ∧ size < thresh) := by
+  unfold modeOf
+  cases ssend <;> cases rma <;> cases bsend <;> simp
+  all_goals (split <;> simp_all)
+
+/-- **private_bytes_transferred_all_modes** — eager, detached (Bsend / RMA) and rendezvous sends of a basic datatype:
+    whatever the mode (= whichever buffer `Request::start` hands to the copy callback: the heap copy of the whole message
+    or the user's buffer), for every layout of private blocks of the sender's and of the receiver's allocation, every
+    offset of the two buffers in their allocations, every send and receive size: each byte `x` of the transferred part
+    (`x < min(nSend, nRecv)`) that is private on BOTH sides ends up in the receive buffer with the value the sender's
+    buffer had when the send started.  Hypothesis for rendezvous: the sender's buffer is not modified before the copy
+    (the sender is blocked in MPI_Send / MPI_Ssend; MPI forbids touching the buffer of a pending MPI_Isend). -/
+theorem private_bytes_transferred_all_modes (m : Mode) (srcK dstK : BufKind) (nSend nRecv : Nat) (viaTmp : Bool)
+    (userAtSend userAtCopy dst tmp : Buf) (x : Nat)
+    (hws : WfKind srcK (Nat.min nSend nRecv)) (hwd : WfKind dstK (Nat.min nSend nRecv))
+    (hx : x < Nat.min nSend nRecv) (hps : PrivateIn srcK x) (hpd : PrivateIn dstK x)
+    (hstable : m = .rendezvous → userAtCopy = userAtSend) :
+    transfer m srcK dstK nSend nRecv viaTmp userAtSend userAtCopy dst tmp x = userAtSend x := by
+  unfold transfer
+  have hn : ¬ (Nat.min nSend nRecv = 0) := by omega
+  simp only [hn, if_false]
+  cases m with
+  | eager =>
+    simp only [seenBuffer, Mode.heapCopy, if_true]
+    exact private_bytes_copied_fixed .notShared dstK _ viaTmp userAtSend dst tmp x trivial hwd hx trivial hpd
+  | detached =>
+    simp only [seenBuffer, Mode.heapCopy, if_true]
+    exact private_bytes_copied_fixed .notShared dstK _ viaTmp userAtSend dst tmp x trivial hwd hx trivial hpd
+  | rendezvous =>
+    simp only [seenBuffer, Mode.heapCopy, Bool.false_eq_true, if_false]
+    rw [hstable rfl]
+    exact private_bytes_copied_fixed srcK dstK _ viaTmp userAtSend dst tmp x hws hwd hx hps hpd
+
+/-- in the eager and detached modes a later modification of the sender's buffer (allowed once MPI_Send / MPI_Bsend has
+    returned) does not change what the receiver gets: the result does not depend on `userAtCopy` at all -/
+theorem heap_copy_modes_ignore_later_writes (m : Mode) (hm : m ≠ .rendezvous) (srcK dstK : BufKind) (nSend nRecv : Nat)
+    (viaTmp : Bool) (userAtSend u1 u2 dst tmp : Buf) :
+    transfer m srcK dstK nSend nRecv viaTmp userAtSend u1 dst tmp = transfer m srcK dstK nSend nRecv viaTmp userAtSend u2 dst tmp := by
+  cases m with
+  | rendezvous => exact absurd rfl hm
+  | eager => rfl
+  | detached => rfl
+
+/-- bytes of the receive buffer at or beyond the transferred size are untouched, in every mode (truncation to the
+    receiver's size included) -/
+theorem bytes_beyond_message_untouched (m : Mode) (srcK dstK : BufKind) (nSend nRecv : Nat)
+    (userAtSend userAtCopy dst tmp : Buf) (x : Nat) (hwd : WfKind dstK (Nat.min nSend nRecv)) (hx : Nat.min nSend nRecv ≤ x)
+    (hd : ∀ blocks offset, dstK = .shared blocks offset → WfBlocks blocks ∧ offset < W) :
+    transfer m srcK dstK nSend nRecv false userAtSend userAtCopy dst tmp x = dst x := by
+  unfold transfer
+  split
+  · rfl
+  · apply shared_bytes_untouched
+    intro s d _ hdst hc
+    obtain ⟨_, hcd⟩ := merge_sound s d x hc
+    -- the receiver's framed blocks lie inside [0, n)
+    cases dstK with
+    | notShared =>
+      simp only [framed, Option.some.injEq] at hdst
+      subst hdst
+      obtain ⟨b, hb, _, h2⟩ := hcd
+      simp only [List.mem_singleton] at hb
+      subst hb
+      simp only at h2; omega
+    | shared blocks offset =>
+      obtain ⟨hwb, ho⟩ := hd blocks offset rfl
+      simp only [framed, if_true] at hdst
+      split at hdst
+      · cases hdst
+      · injection hdst with hdst
+        rw [← hdst, shift_frame_spec_fixed blocks offset _ hwb ho] at hcd
+        have := (covered_shiftFrameSpec blocks offset _ x).mp hcd
+        omega
+
 /-! ### non-vacuity -/
 example : WfBlocks [(8, 16), (32, 40)] ∧ NoStraddle [(8, 16), (32, 40)] 16 ∧ Sorted [(8, 16), (32, 40)] := by
   refine ⟨?_, ?_, ?_⟩
@@ -408,5 +486,14 @@ example : shiftFrame [(8, 16), (32, 40)] 16 20 = [(16, 20)] ∧ shiftFrame [(8, 
     shiftFrameFixed [(8, 16), (32, 40)] 10 30 = [(0, 6), (22, 30)] := by decide
 example : merge [(0, 6), (22, 30)] [(4, 25), (26, 28)] = [(4, 6), (22, 25), (26, 28)] := by decide
 example : callback true (.shared [(8, 16), (32, 40)] 10) .notShared 30 false (fun i => i + 100) (fun _ => 0) (fun _ => 0) 3 = 103 := by decide
+
+/-- the three modes on one layout: sender's allocation private on [8,16) ∪ [32,40), message = bytes 10.. of it (so the
+    first private block straddles the message start), receiver private on [0,20); byte 3 of the message is private on both
+    sides and arrives in all three modes; `modeOf` picks the mode from the flags and the threshold -/
+example : modeOf false false false 30 65536 = .eager ∧ modeOf false true false 100000 65536 = .detached ∧
+    modeOf false false false 100000 65536 = .rendezvous ∧ modeOf true false false 30 65536 = .rendezvous := by decide
+example : ∀ m : Mode, transfer m (.shared [(8, 16), (32, 40)] 10) (.shared [(0, 20)] 0) 30 25 false (fun i => i + 100)
+    (fun i => i + 100) (fun _ => 0) (fun _ => 0) 3 = 103 := by
+  intro m; cases m <;> decide
 
 end SgVerif.C35
